@@ -16,7 +16,6 @@ Local Arguments pow2 : simpl never.
 Local Arguments elems : simpl never.
 
 Definition hash_ok (hashf : bytes -> N) : Prop := forall k, hashf k <> 0%N.
-Definition put_keys_nonempty (ops : list hop) : Prop := forall k v, In (HPut k v) ops -> k <> [].
 Definition ops_bounded (ops : list hop) : Prop := (N.of_nat (length ops) < 2 ^ 63)%N.
 
 Definition kv (e : slot) : bytes * N := (s_key e, s_val e).
@@ -66,7 +65,7 @@ Section Main.
 
   Lemma regrow_spec cap : 0 < cap -> forall old t,
     TInv hashf cap t ->
-    (forall e, In e (elems old) -> s_hash e = hashf (s_key e) /\ s_key e <> []) ->
+    (forall e, In e (elems old) -> s_hash e = hashf (s_key e)) ->
     NoDup (map s_key (elems old)) ->
     (forall e e', In e (elems old) -> In e' (elems t) -> s_key e <> s_key e') ->
     (length (elems old) + length (elems t) < N.to_nat cap)%nat ->
@@ -80,10 +79,10 @@ Section Main.
       destruct (N.eqb_spec (s_hash e) 0) as [E0|E0].
       + apply occb_false in E0. rewrite E0 in *. apply IH; auto.
       + pose proof E0 as Eo. apply occb_true in Eo. rewrite Eo in *.
-        destruct (Hval e) as [Hv1 Hv2]; [left; auto|].
+        pose proof (Hval e (or_introl eq_refl)) as Hv1.
         pose proof (ti_len _ _ _ HI) as Hlen.
         cbn [map length] in *. inversion Hnd as [|? ? Hni Hnd']; subst.
-        destruct (insert_spec hashf hash_nz cap Hcap t (s_key e) (s_val e) HI Hv2) as (t1 & ow & E1 & HI1 & Hcase);
+        destruct (insert_spec hashf hash_nz cap Hcap t (s_key e) (s_val e) HI) as (t1 & ow & E1 & HI1 & Hcase);
           [lia|].
         rewrite Hv1, E1.
         destruct Hcase as [(-> & Hfresh & HP)|(-> & e0 & rest & Ek & P1 & P2)].
@@ -144,14 +143,14 @@ Section Main.
   (** ** [h_put] *)
 
   Lemma put_spec m k v :
-    HInv m -> k <> [] -> N.of_nat (length (elems (h_tbl m))) < 9223372036854775808 ->
+    HInv m -> N.of_nat (length (elems (h_tbl m))) < 9223372036854775808 ->
     exists m', h_put hashf m k v = Some m' /\ HInv m' /\
       (((forall e, In e (elems (h_tbl m)) -> s_key e <> k)
         /\ Permutation (elems (h_tbl m')) (mk (hashf k) k v :: elems (h_tbl m)))
        \/ (exists e0 rest, s_key e0 = k /\ Permutation (elems (h_tbl m)) (e0 :: rest)
                            /\ Permutation (elems (h_tbl m')) (mk (hashf k) k v :: rest))).
   Proof.
-    intros [H0 Hn] Hk Hb. unfold h_put.
+    intros [H0 Hn] Hb. unfold h_put.
     set (m0 := {| h_tbl := h_tbl m; h_n := (h_n m + 1)%Z; h_cap := h_cap m; h_lf := h_lf m |}).
     pose proof (hi_cap _ H0) as Hc. pose proof (hi_lf _ H0) as Hlf.
     pose proof (HInv0_occ_le _ H0) as Hocc.
@@ -171,7 +170,7 @@ Section Main.
     destruct Hm1 as (m1 & -> & H1 & Hn1 & HP1 & Hlt1).
     pose proof (hi_cap _ H1) as Hc1. pose proof (hi_t _ H1) as HI1.
     pose proof (ti_len _ _ _ HI1) as Hlen1.
-    destruct (insert_spec hashf hash_nz (h_cap m1) Hc1 (h_tbl m1) k v HI1 Hk) as (t' & ow & E' & HI' & Hcase).
+    destruct (insert_spec hashf hash_nz (h_cap m1) Hc1 (h_tbl m1) k v HI1) as (t' & ow & E' & HI' & Hcase).
     { rewrite (Permutation_length HP1). lia. }
     rewrite E'. eexists; split; [reflexivity|].
     destruct Hcase as [(-> & Hfresh & HP)|(-> & e0 & rest & Ek & P1 & P2)].
@@ -236,12 +235,12 @@ Section Main.
   Qed.
 
   Lemma Rel_put m a k v :
-    Rel m a -> k <> [] -> N.of_nat (length a) < 9223372036854775808 ->
+    Rel m a -> N.of_nat (length a) < 9223372036854775808 ->
     exists m', h_put hashf m k v = Some m' /\ Rel m' (amap_put k v a).
   Proof.
-    intros HR Hk Hb. pose proof (Rel_NoDup _ _ HR) as Hnd. destruct HR as [HI HP].
+    intros HR Hb. pose proof (Rel_NoDup _ _ HR) as Hnd. destruct HR as [HI HP].
     pose proof (Permutation_length HP) as HL. rewrite map_length in HL.
-    destruct (put_spec m k v HI Hk) as (m' & E' & HI' & Hcase); [lia|].
+    destruct (put_spec m k v HI) as (m' & E' & HI' & Hcase); [lia|].
     exists m'. split; auto. split; auto. unfold amap_put.
     destruct Hcase as [(Hfresh & P)|(e0 & rest & Ek & P1 & P2)].
     - rewrite amap_remove_notin.
@@ -306,7 +305,7 @@ Section Main.
   (** ** one step, then the whole run *)
 
   Lemma step_spec m a o :
-    Rel m a -> (forall k v, o = HPut k v -> k <> []) ->
+    Rel m a ->
     N.of_nat (length a) < 9223372036854775808 ->
     exists m1 v n c,
       h_step hashf m o = Some (m1, (v, n, c)) /\ Rel m1 (amap_step a o) /\
@@ -317,8 +316,8 @@ Section Main.
       n = Z.of_nat (length (amap_step a o)) /\
       (length (amap_step a o) <= S (length a))%nat.
   Proof.
-    intros HR Hk Hb. destruct o as [k v|k|sz|]; cbn [h_step amap_step].
-    - destruct (Rel_put m a k v HR) as (m1 & E & HR1); [eapply Hk; eauto|lia|].
+    intros HR Hb. destruct o as [k v|k|sz|]; cbn [h_step amap_step].
+    - destruct (Rel_put m a k v HR) as (m1 & E & HR1); [lia|].
       rewrite E. exists m1, 0, (h_n m1), (h_cap m1). splits; auto.
       + apply Rel_length; auto.
       + unfold amap_put. cbn [length]. pose proof (amap_remove_length_le k a). lia.
@@ -333,19 +332,16 @@ Section Main.
   Qed.
 
   Lemma run_spec : forall ops m a,
-    Rel m a -> put_keys_nonempty ops ->
+    Rel m a ->
     N.of_nat (length a) + N.of_nat (length ops) < 9223372036854775808 ->
     exists m' obs, h_run hashf m ops = Some (m', obs) /\ amap_oracle a ops obs = true
                    /\ Rel m' (fold_left amap_step ops a).
   Proof.
-    induction ops as [|o r IH]; intros m a HR Hk Hb.
+    induction ops as [|o r IH]; intros m a HR Hb.
     - exists m, []. simpl. auto.
-    - assert (Hkr : put_keys_nonempty r) by (intros k v Hin; apply (Hk k v); right; auto).
-      cbn [length] in Hb.
-      destruct (step_spec m a o HR) as (m1 & v & n & c & E1 & HR1 & Hv & Hn & Hl).
-      { intros k v ->. apply (Hk k v). left; auto. }
-      { lia. }
-      destruct (IH m1 (amap_step a o) HR1 Hkr) as (m' & obs & E' & Ho & HR'); [lia|].
+    - cbn [length] in Hb.
+      destruct (step_spec m a o HR) as (m1 & v & n & c & E1 & HR1 & Hv & Hn & Hl); [lia|].
+      destruct (IH m1 (amap_step a o) HR1) as (m' & obs & E' & Ho & HR'); [lia|].
       exists m', ((v, n, c) :: obs). cbn [h_run]. rewrite E1, E'. split; auto. split; auto.
       cbn [amap_oracle]. cbv zeta. rewrite Ho, Hv. subst n. rewrite Z.eqb_refl. reflexivity.
   Qed.
@@ -354,34 +350,34 @@ End Main.
 (** * Final lemmas (hash function as a plain argument) *)
 
 Lemma rhh_run_refines hashf c lf ops :
-  hash_ok hashf -> lf <= 100 -> put_keys_nonempty ops -> ops_bounded ops ->
+  hash_ok hashf -> lf <= 100 -> ops_bounded ops ->
   exists m obs, h_run hashf (h_new c lf) ops = Some (m, obs) /\ amap_oracle [] ops obs = true
                 /\ Rel hashf m (amap_final ops).
 Proof.
-  intros Hh Hlf Hk Hb. unfold ops_bounded in Hb.
+  intros Hh Hlf Hb. unfold ops_bounded in Hb.
   change (2 ^ 63) with 9223372036854775808 in Hb.
   apply (run_spec hashf Hh ops (h_new c lf) []); auto.
   apply Rel_new; auto.
 Qed.
 
 Lemma rhh_total : forall hashf c lf ops,
-  hash_ok hashf -> (lf <= 100)%N -> put_keys_nonempty ops -> ops_bounded ops ->
+  hash_ok hashf -> (lf <= 100)%N -> ops_bounded ops ->
   exists m obs, h_run hashf (h_new c lf) ops = Some (m, obs).
 Proof.
-  intros hashf c lf ops Hh Hlf Hk Hb.
-  destruct (rhh_run_refines hashf c lf ops Hh Hlf Hk Hb) as (m & obs & E & _).
+  intros hashf c lf ops Hh Hlf Hb.
+  destruct (rhh_run_refines hashf c lf ops Hh Hlf Hb) as (m & obs & E & _).
   exists m, obs; auto.
 Qed.
 
 Lemma rhh_refines_map : forall hashf c lf ops m obs,
-  hash_ok hashf -> (lf <= 100)%N -> put_keys_nonempty ops -> ops_bounded ops ->
+  hash_ok hashf -> (lf <= 100)%N -> ops_bounded ops ->
   h_run hashf (h_new c lf) ops = Some (m, obs) ->
   amap_oracle [] ops obs = true
   /\ (forall k, h_get hashf m k = match amap_get k (amap_final ops) with Some v => v | None => 0%N end)
   /\ h_n m = Z.of_nat (length (amap_final ops)).
 Proof.
-  intros hashf c lf ops m obs Hh Hlf Hk Hb E.
-  destruct (rhh_run_refines hashf c lf ops Hh Hlf Hk Hb) as (m' & obs' & E' & Ho & HR).
+  intros hashf c lf ops m obs Hh Hlf Hb E.
+  destruct (rhh_run_refines hashf c lf ops Hh Hlf Hb) as (m' & obs' & E' & Ho & HR).
   rewrite E in E'. inversion E'; subst m' obs'.
   split; auto. split.
   - intros k. apply Rel_get; auto.
@@ -399,13 +395,13 @@ Proof.
 Qed.
 
 Lemma rhh_keys_sorted_domain : forall hashf c lf ops m obs,
-  hash_ok hashf -> (lf <= 100)%N -> put_keys_nonempty ops -> ops_bounded ops ->
+  hash_ok hashf -> (lf <= 100)%N -> ops_bounded ops ->
   (forall k v, In (HPut k v) ops -> v <> 0%N) ->
   h_run hashf (h_new c lf) ops = Some (m, obs) ->
   h_keys m = bytes_sort (map fst (amap_final ops)).
 Proof.
-  intros hashf c lf ops m obs Hh Hlf Hk Hb Hv E.
-  destruct (rhh_run_refines hashf c lf ops Hh Hlf Hk Hb) as (m' & obs' & E' & Ho & HR).
+  intros hashf c lf ops m obs Hh Hlf Hb Hv E.
+  destruct (rhh_run_refines hashf c lf ops Hh Hlf Hb) as (m' & obs' & E' & Ho & HR).
   rewrite E in E'. inversion E'; subst m' obs'.
   apply (Rel_keys hashf m (amap_final ops) HR).
   unfold amap_final. apply vals_nz_fold; auto. intros k v [].
